@@ -1,4 +1,5 @@
 import RV.Base.SetList
+import RV.C04.Model
 /-
   C10 — model of `rdflib/plugins/sparql/update.py` (after the `fix:` commits listed in
   known_findings.d/C10.jsonl), `evalutils._fillTemplate`, the parts of `algebra.translateUpdate1` /
@@ -24,6 +25,10 @@ import RV.Base.SetList
     `_fillTemplate` (+ the GRAPH-variable test)          → `fillTemplate`, `instGraph`
     `evalBGP`, `_join`, `evalGraph`, the FILTER          → `evalBGP`, `join`, `evalBlock`, `evalWhere`
     `QueryContext.__init__` (union switch, datasetClause)→ `effUnion`, `whereDefault`, `usingDataset`
+    `evalPart` on the WHERE clause of DELETE/INSERT        → `algSolutions`: the C04 model of evaluate.py
+                                                           (`RV.C04.Model.evalPart`) run on rdflib's own translated
+                                                           and annotated algebra tree (`WMode.alg`), over the dataset
+                                                           this model selects (`toC04`, `WhereDS.toC04`)
 -/
 namespace RV.C10
 
@@ -232,12 +237,100 @@ def evalWhere (d : WhereDS) (blocks : List Block) (flt : Option Flt) : List Bind
   | some f => sols.filter f.keep
   | none => sols
 
+/-! ### WHERE clauses of the full algebra: rdflib's own tree, evaluated by the C04 model of `evaluate.py`
+
+  `translateUpdate1` (after `fix: the WHERE clause of DELETE/INSERT is post-processed like the pattern of a query`)
+  hands `evalModify` the tree `translateGroupGraphPattern` built, simplified and annotated (`lazy`, `_vars`) exactly
+  as `translateQuery` does for a query; `evalModify` runs `evalPart(ctx, u.where)` on it.  `RV.C04.Model.evalPart`
+  is the model of that evaluator (one function per Python function, proved against SPARQL §18 in RV/C04); here it
+  is run on the dataset THIS model selects (WITH graph / union / real default graph / USING merge; registered
+  graphs / USING NAMED graphs).  Terms: C04 has typed literals, this model opaque ones — `litTable` says which
+  literal of the harness vocabulary is which C04 literal (any other literal is an opaque negative integer, so the
+  embedding stays injective). -/
+
+def litTable : List (Nat × C04.Term) :=
+  [(20, .str ""), (21, .int 0), (22, .bool false), (24, .int 1), (25, .int 2), (26, .str "a"), (27, .bool true)]
+
+def litLookup : List (Nat × C04.Term) → Nat → Option C04.Term
+  | [], _ => none
+  | (k, t) :: rest, n => if k = n then some t else litLookup rest n
+
+def litRev : List (Nat × C04.Term) → C04.Term → Option Nat
+  | [], _ => none
+  | (k, t) :: rest, x => if t = x then some k else litRev rest x
+
+def toC04 : Term → C04.Term
+  | .iri n => .iri n
+  | .bnode n => .bnode n
+  | .fresh n => .fresh n 0
+  | .lit n =>
+    match litLookup litTable n with
+    | some t => t
+    | none => .int (Int.negSucc n)
+
+/-- back from a row of the evaluator.  Every term of a row is a term of the dataset, a constant of the pattern or a
+    boolean (both in `litTable`); the last line is never reached for those. -/
+def ofC04 : C04.Term → Term
+  | .iri n => .iri n
+  | .bnode n => .bnode n
+  | .fresh n _ => .fresh n
+  | t =>
+    match litRev litTable t with
+    | some n => .lit n
+    | none =>
+      match t with
+      | .int (Int.negSucc n) => .lit n
+      | _ => .lit 0
+
+def tripleToC04 (t : Triple) : C04.Triple := (toC04 t.1, toC04 t.2.1, toC04 t.2.2)
+
+def WhereDS.toC04 (d : WhereDS) : C04.Dataset :=
+  { dflt := d.dflt.map tripleToC04,
+    named := d.named.map (fun e => (C04.Term.iri e.1, e.2.map tripleToC04)) }
+
+/-- the dataset `QueryContext(datasetClause=…)` builds registers a USING NAMED graph by the first triple copied into
+    it: an empty or missing one is not among `contexts()` (matters to `GRAPH ?g { }` and `GRAPH <g> { OPTIONAL … }`) -/
+def WhereDS.nonEmptyNamed (d : WhereDS) : WhereDS :=
+  { d with named := d.named.filter (fun e => !e.2.isEmpty) }
+
+/-- a solution of the evaluator as a binding list: variable `k` is column `k` -/
+def rowToBinding {n : Nat} (μ : C04.Row n) : Binding :=
+  (List.range n).filterMap (fun k => (μ.get k).map (fun t => (k, ofC04 t)))
+
+/-- `list(evalPart(ctx, u.where))`: active graph = the default graph of the WHERE dataset, no bindings pushed in -/
+def algSolutions (d : WhereDS) (n : Nat) (P : C04.Alg) : List Binding :=
+  (C04.Model.evalPart d.toC04 d.toC04.dflt (C04.Row.empty : C04.Row n) P).map rowToBinding
+
+mutual
+/-- does the pattern contain GRAPH (on a plain Graph `evalGraph` raises) -/
+def algHasGraph : C04.Alg → Bool
+  | .bgp _ => false
+  | .join _ a b => algHasGraph a || algHasGraph b
+  | .leftJoin a b e _ _ => algHasGraph a || algHasGraph b || exprHasGraph e
+  | .filter e p _ _ => exprHasGraph e || algHasGraph p
+  | .union a b => algHasGraph a || algHasGraph b
+  | .minus a b _ _ => algHasGraph a || algHasGraph b
+  | .extend p _ e _ => algHasGraph p || exprHasGraph e
+  | .graph _ _ => true
+  | .values _ _ => false
+  | .project p _ => algHasGraph p
+def exprHasGraph : C04.Expr → Bool
+  | .var _ => false
+  | .const _ => false
+  | .bound _ => false
+  | .cmp _ a b => exprHasGraph a || exprHasGraph b
+  | .and a b => exprHasGraph a || exprHasGraph b
+  | .or a b => exprHasGraph a || exprHasGraph b
+  | .not a => exprHasGraph a
+  | .exists _ p => algHasGraph p
+end
+
 /-- shapes of WHERE clause whose solutions can repeat (solutions are a LIST: a multiset with an order) -/
 inductive WMode
   | plain                          -- { blocks }
   | union (bs : List Block)        -- { { blocks } UNION { bs } }      (`evalUnion`: one list after the other)
   | proj (vs : List Nat)           -- { { SELECT vs WHERE { blocks } } } (`evalProject`: every row projected)
-  deriving Repr
+  | alg (n : Nat) (P : C04.Alg)    -- any pattern of the algebra, as rdflib translated it; rows over `n` variables
 
 /-- `FrozenBindings.project` -/
 def project (vs : List Nat) (μ : Binding) : Binding := μ.filter (fun kv => decide (kv.1 ∈ vs))
@@ -348,9 +441,16 @@ def Modify.solutions (c : Cfg) (u : Modify) (s : St) : List Binding :=
              | .plain => groupSols d u.where_
              | .union bs => groupSols d u.where_ ++ groupSols d bs
              | .proj vs => (groupSols d u.where_).map (project vs)
+             | .alg n P =>
+               algSolutions (if u.using_.isEmpty && u.named.isEmpty then d else d.nonEmptyNamed) n P
   match u.flt with
   | some f => bag.filter f.keep
   | none => bag
+
+/-- the dataset a full-algebra WHERE clause is evaluated against (`Modify.solutions`, case `WMode.alg`) -/
+def Modify.algDataset (c : Cfg) (u : Modify) (s : St) : WhereDS :=
+  if u.using_.isEmpty && u.named.isEmpty then storeDataset c s u.withG
+  else (usingDataset s u.using_ u.named).nonEmptyNamed
 
 /-- the repaired `evalModify`: solutions first, every deletion, then every insertion -/
 def evalModify (c : Cfg) (u : Modify) (s : St) : St :=
@@ -491,7 +591,7 @@ def Op.needsDataset : Op → Bool
   | .modify u =>
     u.withG.isSome || !u.using_.isEmpty || !u.named.isEmpty ||
     u.where_.any (fun b => !b.1.isDflt) ||
-    (match u.wmode with | .union bs => bs.any (fun b => !b.1.isDflt) | _ => false) ||
+    (match u.wmode with | .union bs => bs.any (fun b => !b.1.isDflt) | .alg _ P => algHasGraph P | _ => false) ||
     (match u.del with | some t => t.any (fun x => !x.2.isDflt) | none => false) ||
     (match u.ins with | some t => t.any (fun x => !x.2.isDflt) | none => false)
   | .clear _ t | .drop _ t => (match t with | .graph _ => true | _ => false)
